@@ -521,6 +521,8 @@ impl<'a, 'b> Sem<'a, 'b> {
                 "sv", "a b", " lead", "trail ", "  both  ", "in  ner", "l1\nl2", "l1 \n  l2", "\n x \n",
                 "tab\there", "", " ", "nb\u{a0}sp", "\u{a0}edge\u{a0}", "cr\rlf", "a\r\n b", "\u{2003}em",
                 "a&b", "say \"hi\"", "it's \"x\" & y", "&amp;literal", "<tag> {brace}",
+                // JSX strings have no escapes: backslashes are plain characters
+                "C:\\users\\x", "q\\1", "\\d+\\x", "end\\", "\\u{zz}",
             ])
             .to_string()
     }
@@ -763,7 +765,10 @@ impl<'a, 'b> Sem<'a, 'b> {
                             Ex::Src { cat: Cat::ArrLit, .. } => Ex::src("y", Cat::IdentBound),
                             e => e,
                         }),
-                        1 => DirValue::Str("<b>raw</b> text".replace('<', "(").replace('>', ")")),
+                        1 => {
+                            self.label("directive-string-value");
+                            DirValue::Str(self.string_value())
+                        }
                         _ => DirValue::Array {
                             value: self.expr(depth + 1),
                             arg: None,
@@ -881,7 +886,12 @@ impl<'a, 'b> Sem<'a, 'b> {
         } else {
             self.expr(self.cfg.max_depth)
         };
-        let value = match self.c.weighted(&[5, 2, 2, 2, 2, 1]) {
+        let value = match self.c.weighted(&[5, 2, 2, 2, 2, 1, if self.cfg.logging { 0 } else { 1 }]) {
+            6 => {
+                // `v-foo="text"`: the string is the directive's value
+                self.label("directive-string-value");
+                DirValue::Str(self.string_value())
+            }
             0 => DirValue::Expr(match ve {
                 // `{[..]}` would be read as the array form
                 Ex::Src { cat: Cat::ArrLit, .. } => Ex::src("x", Cat::IdentBound),
@@ -1079,7 +1089,7 @@ impl<'a, 'b> Sem<'a, 'b> {
         let n = self.c.range(1, 12);
         let mut out = vec![];
         for _ in 0..n {
-            let p = match self.c.weighted(&[6, 6, 3, 2, 1, 1, 1, 1, 1, 1, 2, 2]) {
+            let p = match self.c.weighted(&[6, 6, 3, 2, 1, 1, 1, 1, 1, 1, 2, 2, 1]) {
                 0 => raw(self.c.choose(&["a", "b", "word", "Z", "9", ".", ",", "-"])),
                 1 => raw(" "),
                 2 => raw("\n"),
@@ -1100,6 +1110,18 @@ impl<'a, 'b> Sem<'a, 'b> {
                     }
                 }
                 10 => raw(self.c.choose(&["{", "}", "<", ">", "&"])),
+                12 => {
+                    // white space written as a character reference: the rule applies to the decoded
+                    // text (Babel cleans `JSXText.value`), so these are line breaks / tabs / spaces
+                    let (d, e) = self.c.choose(&[
+                        ("\n", "#10"), ("\n", "#xA"), ("\r", "#13"), ("\r", "#xD"), ("\t", "#9"), (" ", "#32"), (" ", "#x20"),
+                    ]);
+                    self.label("whitespace-character-reference");
+                    TextPiece {
+                        decoded: d.into(),
+                        entity: Some(e.into()),
+                    }
+                }
                 _ => raw("  "),
             };
             out.push(p);
